@@ -29,6 +29,7 @@ def declare(rep):
     rep.rule("R15.1", "every surviving link write has parent ⊋ child and the branch side of the child (from the path's facts)")
     rep.rule("R15.2", "root never freed / linked as a child; prefix overwritten only by an equal key or on a fresh slot")
     rep.rule("R15.3", "insert / entry insertions / remove map canonical pre-states to canonical post-states (touched nodes)")
+    rep.rule("R15.5", "(shared with C16) no live node links to a freed slot, no slot is linked twice")
     rep.rule("R15.4", "value-only operations write no link, free-list or arena state")
 
 
@@ -99,6 +100,9 @@ def run_config(ctx, rep, cfg, F):
             for kind, slot, text in g.problems(ret_fresh):
                 if kind in ("root-freed", "root-linked"):
                     rep.bad("R15.2", where, kind, "%s: %s" % (where, text), config=cfg)
+                elif kind in ("free-linked", "double-link"):
+                    rep.bad("R15.5", where, "%s:%s" % (kind, slot), "%s: %s — the structure reachable through views is then no longer a tree of live "
+                            "nodes (inputs: %s)" % (where, text, C.inputs_str(p, 12)), config=cfg)
             for e in p.ev("prefix_write"):
                 if e["fresh"]:
                     continue
